@@ -894,7 +894,7 @@ fn ops_for(pt: &Ty, cfg: &QueryGenConfig) -> Vec<Op> {
     ops
 }
 
-fn tag_compatible(op: Op, pt: &Ty, tt: &Ty, cfg: &QueryGenConfig) -> bool {
+pub fn tag_compatible(op: Op, pt: &Ty, tt: &Ty, cfg: &QueryGenConfig) -> bool {
     match op {
         Op::Eq | Op::Ne => pt.same_shape(tt),
         Op::Lt | Op::Le | Op::Gt | Op::Ge => {
